@@ -6,6 +6,9 @@ print("| change | file : site | needs | first run | now caught by (signature of 
 print("|---|---|---|---|---|")
 for f in sorted(glob.glob(os.path.join(root, "C*_m*", "meta.json"))):
   m = json.load(open(f))
+  if m.get("superseded"):
+    print(f"| {m['name']} | - | - | - | superseded: no longer breaks the property on the repaired tree ({m['superseded'][:90]}...) |")
+    continue
   cr = m["check_result"]
   hist = m.get("history", [])
   first = hist[0] if hist else cr
